@@ -285,14 +285,17 @@ def compare_lines(mo, real):
 def gen_merge_case(rng, cid):
     names = rng.sample(["chr1", "chr2", "chr10", "chrX", "chr3_alt", "2", "11"], rng.randint(1, 4))
     parts = []
+    # all parts of one merge are written by the same printer: the same number of header lines, which the caller of
+    # merge_files passes (`printer.header_lines`: 3 for read_assignments.tsv, 1 for corrected_reads.bed, 0 for the GTFs)
+    hl = rng.choice([0, 1, 3, 3])
     for nm in names:
-        head = ["# Command line: x y\n", "# IsoQuant version: 3\n", "#read_id\tchr\n"][:rng.choice([0, 1, 3, 3])]
+        head = ["# Command line: x y\n", "# IsoQuant version: 3\n", "#read_id\tchr\n"][:hl]
         body = []
         for k in range(rng.choice([0, 1, 2, 5])):
             lead = "#" if rng.random() < 0.25 else ""
             body.append("%sr%d_%s\t%s\n" % (lead, k, nm, nm))
         parts.append(head + body)
-    return {"id": cid, "names": names, "parts": parts}
+    return {"id": cid, "names": names, "parts": parts, "header_lines": hl}
 
 
 def real_merge(case, root):
@@ -301,8 +304,11 @@ def real_merge(case, root):
     for nm, lines in zip(case["names"], case["parts"]):
         with open(os.path.join(root, "S_%s.out.tsv" % nm), "w", newline="") as f:
             f.write("".join(lines))
+    import inspect
+    # a tree whose merge_files finds the header lines by content (before the repair fix_merge_header) has no such parameter
+    kw = {"header_lines": case.get("header_lines", 0)} if "header_lines" in inspect.signature(FU.merge_files).parameters else {}
     with open(base, "w", newline="") as out:
-        FU.merge_files(base, "S", list(case["names"]), out, copy_header=False)
+        FU.merge_files(base, "S", list(case["names"]), out, copy_header=False, **kw)
     left = [fn for fn in os.listdir(root) if fn.startswith("S_")]
     res = read_lines(base)
     os.remove(base)
@@ -405,7 +411,7 @@ def correspondence(ctx):
         # 4. merge_files(copy_header=False)
         n_mg = 150 if quick else 1500
         mcs = [gen_merge_case(rng, i) for i in range(n_mg)]
-        reqs = [vlib.req("C15.merge_body", order=vlib.model_merge_order(c["names"]),
+        reqs = [vlib.req("C15.merge_body", order=vlib.model_merge_order(c["names"]), header_lines=c["header_lines"],
                          parts=[[G.cps(l) for l in p_] for p_ in c["parts"]]) for c in mcs]
         outs = ctx.driver.run(reqs)
         for c, mo in zip(mcs, outs):
@@ -512,7 +518,8 @@ def hash_witness_unit():
     belongs to read `#r1` -> True iff that line is missing from the merged file"""
     root = tempfile.mkdtemp(prefix="isoverif_c15p_")
     try:
-        case = {"names": ["c1"], "parts": [["# Command line: isoquant.py\n", "# IsoQuant version: 3.4.0\n", "#read_id\tchr\n",
+        case = {"names": ["c1"], "header_lines": 3,
+                "parts": [["# Command line: isoquant.py\n", "# IsoQuant version: 3.4.0\n", "#read_id\tchr\n",
                                             "#r1\tc1\t+\t.\t.\tintergenic\t.\t1-5\t*\n",
                                             "r2\tc1\t+\t.\t.\tintergenic\t.\t11-15\t*\n"]]}
         merged, _ = real_merge(case, root)
@@ -547,10 +554,10 @@ def hash_witness_pipeline(seed=1):
         shutil.rmtree(d, ignore_errors=True)
 
 
-def oracle(ctx, report_finding=False):
-    """replays `merged_hash_witness` on the real code (unit level and through the pipeline).  The class is a candidate
-    known finding (`printers:hash_led_line_lost`); until it is listed in known_findings.json the replay is recorded in
-    the evidence (`ctx.extra`) and as a note, not reported as a failure (set `report_finding` once it is listed)."""
+def oracle(ctx, report_finding=True):
+    """replays `merged_hash_witness` on the real code (unit level and through the pipeline): the input on which the tree
+    before the repair fix_merge_header loses a line of read_assignments.tsv.  Reproduced = a failing input of the real
+    code (kind `printers:hash_led_line_lost`); on the repaired tree neither level reproduces it."""
     ok_u, merged = hash_witness_unit()
     ctx.count("oracle:hash_witness_unit")
     ok_p, detail = hash_witness_pipeline(ctx.seed)
@@ -561,7 +568,7 @@ def oracle(ctx, report_finding=False):
                "read_assignments.tsv (merge_files takes its line for a header line): unit=%s pipeline=%s" % (ok_u, ok_p))
         ctx.notes.append(msg)
         if report_finding:
-            ctx.fail(HASH_KIND, {"witness": "merged_hash_witness", "read_id": "#first"}, msg)
+            ctx.fail(HASH_KIND, {"witness": "merged_hash_witness", "read_id": "#first", "level": "printers_hash"}, msg)
 
 
 def replay(ctx, failure):
